@@ -87,9 +87,6 @@ theorem mem_writesAxis {g : List Nat} {r : Nat × Nat} {k : Nat} :
 theorem writesAxis_nodup (g : List Nat) (r : Nat × Nat) : (writesAxis g r).Nodup :=
   List.Nodup.sublist List.filter_sublist List.nodup_range
 
-/-- every boundary of `w` is a boundary of `s`. -/
-def Refines (s w : List Nat) : Prop := ∀ c, c ≤ w.length → ∃ j, j ≤ s.length ∧ off s j = off w c
-
 /-- along one axis every stored chunk of `s` is touched by the region of exactly one block `c` of the write
 grid `w`, and that region covers it entirely. -/
 def Axis1 (s w : List Nat) : Prop :=
@@ -297,9 +294,6 @@ theorem axesOK_map_inv {α : Type} (f h : α → List Nat) : ∀ (l : List α), 
 
 
 /-! ## 4. regular grids, split_chunksizes, _fix_copy_chunks -/
-
-/-- `x` is a chunk boundary of `g` (an entry of `_cumsum(g, initial_zero=True)`). -/
-def IsBound (g : List Nat) (x : Nat) : Prop := ∃ j, j ≤ g.length ∧ off g j = x
 
 theorem refines_iff_bounds (s w : List Nat) : Refines s w ↔ ∀ x, IsBound w x → IsBound s x := by
   constructor
